@@ -120,7 +120,8 @@ MC_Blocks == CASE Tier = "quick"    -> BlocksQuick(3)
                [] Tier = "tiny"     -> BlocksTiny(2)
 
 ----------------------------------------------------------------------------
-(* every maximal behaviour (= one block carried through generation, import and run) is printed once *)
-Terminal == phase = "done"
-Emit == Terminal => PrintT(<< "BEH", ToJson([block |-> blk, steps |-> mod.STEP, status |-> mod.status]) >>)
+(* every maximal behaviour (= one block carried MaxGenerations times through generation, import and *)
+(* run on one generator object) is printed once                                                    *)
+Terminal == phase = "done" /\ ngen = MaxGenerations
+Emit == Terminal => PrintT(<< "BEH", ToJson([block |-> blk, steps |-> mod.STEP, status |-> mod.status, generations |-> ngen]) >>)
 =============================================================================
